@@ -57,8 +57,8 @@ import (
 
 const (
 	maxDepth = 25
-	deadline = 6 * time.Second
-	watchdog = deadline + 2*time.Second
+	deadline = 4 * time.Second
+	watchdog = deadline + 1500*time.Millisecond
 
 	engClassic  = 0
 	engWeighted = 1
@@ -70,7 +70,7 @@ const (
 	errValidation = 3
 	errOther      = 4
 	errSlow       = 5
-	errHang       = 6 // the call did not return within the deadline plus 2 s (abandoned)
+	errHang       = 6 // the call did not return within the deadline plus 1.5 s (abandoned)
 )
 
 // Req is one ListObjects request of a scenario (part of the replay description).
@@ -193,7 +193,7 @@ func engineOpts(engine int, rq Req, limit uint32) []commands.ListObjectsQueryOpt
 }
 
 // list runs one real ListObjects call under a watchdog: a call that does not return within the
-// ListObjects deadline plus 2 s is abandoned (its goroutines leak) and reported as errHang.
+// ListObjects deadline plus 1.5 s is abandoned (its goroutines leak) and reported as errHang.
 func (r *runner) list(rq Req, engine, mode int, limit uint32) (int, []string) {
 	type res struct {
 		ec   int
@@ -466,11 +466,17 @@ func runScenario(ctx context.Context, w *rec.Writer, r *rec.Rand, sq storage.Ope
 			w.Stat("calls", 1)
 			w.Stat("calls_"+engNames[engine]+"_"+errNames[ec], 1)
 		}
+		hung := map[int]bool{}
 		for b, rn := range runners {
 			for engine := engClassic; engine <= engPipeline; engine++ {
+				if hung[engine] {
+					w.Stat("calls_skipped_after_hang", 1)
+					continue // the hang does not depend on the backend; do not wait for it twice
+				}
 				ec0, objs0 := rn.list(rq, engine, 0, 0)
 				emit(b, engine, 0, 0, ec0, objs0)
 				if ec0 == errHang {
+					hung[engine] = true
 					continue // no response at all: the remaining calls of this engine would hang as well
 				}
 				if b == 0 && engine == engClassic {
@@ -584,6 +590,19 @@ func witnesses() []witness {
 			{Obj: "group:3", Rel: "member", User: "user:*", Cond: "c1", Ctx: map[string]any{"x": 1}},
 			{Obj: "doc:2", Rel: "editor", User: "group:3#member"},
 		}}, []Req{dflt("user:a", "doc", "editor")}})
+	// pipeline_streamed_error_failopen: doc:3 is blocked (condition met), doc:1's blocked-condition
+	// cannot be evaluated: the streamed pipeline sends both and then fails
+	out = append(out, witness{&scen.Scenario{Shape: "witness-pipeline_streamed_error_failopen", Conds: []string{"c1"}, Types: []scen.TypeDef{user,
+		{Name: "doc", Rels: []scen.RelDef{
+			{Name: "viewer", RW: scen.This(), Restr: []scen.Restr{scen.RObj("user")}},
+			{Name: "blocked", RW: scen.This(), Restr: []scen.Restr{scen.RObj("user").With("c1")}},
+			{Name: "allowed", RW: scen.Diff(scen.Comp("viewer"), scen.Comp("blocked"))},
+		}}}, Tuples: []scen.Tuple{
+		{Obj: "doc:1", Rel: "viewer", User: "user:b"},
+		{Obj: "doc:3", Rel: "viewer", User: "user:b"},
+		{Obj: "doc:1", Rel: "blocked", User: "user:b", Cond: "c1"},
+		{Obj: "doc:3", Rel: "blocked", User: "user:b", Cond: "c1", Ctx: map[string]any{"x": 1}},
+	}}, []Req{dflt("user:b", "doc", "allowed")}})
 	return out
 }
 
